@@ -18,6 +18,10 @@ A history is a list of ops (JSON-able lists):
                                returns -- the deterministic equivalent of a reader thread that processes
                                the reply while the sending thread is still inside toLower()/send()
   ["dlv", mid, typ, shape]     incoming iq with (model) id `mid`, type result/error/get/set
+  ["dlv", mid, typ, shape, content]   the same with the given CONTENT (key of CONTENTS: what the stanza carries
+                               besides id/type -- the <error> child(ren) and their attributes, e.g. backoff);
+                               typ may also be written in another way ("Error", "RESULT", ...: OTHER_TYPES);
+                               nested deliveries likewise: [mid, typ, shape, content]
   ["oth", tag, mid]            incoming non-iq stanza carrying id `mid`
 Model ids are small naturals; the real id is str(base + mid) where base is the value of the
 process-wide counter when the history starts (mid >= FOREIGN are non-numeric foreign ids).
@@ -61,6 +65,45 @@ AKINDS = ["ping", "lastseen", "picget", "picset", "privget", "privset", "statget
 IN_DOMAIN = AKINDS[:20]
 LKINDS = ["fetch_ctl", "fetch_send", "fetch_recv", "keyupload", "groupinfo", "libping"]
 ITYPES = ["result", "error", "get", "set"]
+# the type attribute written in other ways: not a reply for the registries (they compare case-sensitively)
+OTHER_TYPES = ["Error", "ERROR", "Result", "errors"]
+
+
+def typ_code(typ):
+    return ITYPES.index(typ) if typ in ITYPES else len(ITYPES)
+
+
+_ERR = {"code": "406", "text": "not-acceptable"}
+# what a delivered iq carries besides tag/id/type: its children as (tag, attributes).  For a result reply they
+# are appended to the result children of the request's kind; otherwise they ARE the children.
+CONTENTS = {
+    "err-code-text": [("error", {"code": "404", "text": "item-not-found"})],     # what error replies carry by default
+    "err-bare": [("error", {})],
+    "err-backoff-0": [("error", dict(_ERR, backoff="0"))],
+    "err-backoff-3600": [("error", dict(_ERR, backoff="3600"))],                 # ErrorIqProtocolEntity's docstring
+    "err-only-backoff": [("error", {"backoff": "3600"})],
+    "err-backoff-1": [("error", dict(_ERR, backoff="1"))],
+    "err-backoff-abc": [("error", dict(_ERR, backoff="abc"))],
+    "err-backoff-neg": [("error", dict(_ERR, backoff="-5"))],
+    "err-two-plain-backoff": [("error", dict(_ERR)), ("error", dict(_ERR, backoff="3600"))],
+    "err-two-backoff-plain": [("error", dict(_ERR, backoff="60")), ("error", dict(_ERR))],
+    "err-none": [],                                                             # no <error> child at all
+}
+ERROR_CONTENTS = sorted(CONTENTS)
+RESULT_CONTENTS = ["err-backoff-3600", "err-only-backoff", "err-two-plain-backoff"]   # malformed but possible
+
+
+def unparsable(origin, kind, typ, content):
+    """error replies the reply-entity parser of the forwarding callback rejects (ErrorIqProtocolEntity.
+    fromProtocolTreeNode: int(backoff) / the <error> child must exist): outside the property's domain (reply
+    parsing is not modelled).  The library's closures take the node as it is."""
+    if typ != "error" or content not in ("err-backoff-abc", "err-none"):
+        return False
+    return origin == "app" or kind == "libping"
+
+
+def content_children(content):
+    return [N(tag, dict(attrs)) for tag, attrs in CONTENTS[content]]
 SHAPES = ["plain", "sync", "sping"]
 # layers, in the order of the Coq `layer` constructors
 LAYERS = ["presence", "ib", "iq", "contacts", "groups", "media", "privacy", "profiles",
@@ -370,10 +413,11 @@ class Rig(object):
         if self.cur_lib is not None and node["id"] not in self.requests:
             self.requests[node["id"]] = ("lib", self.cur_lib, node)
         def deliver():
-            for mid, typ, shape in script:
+            for d in script:
+                mid, typ = d[0], d[1]
                 self.log.append(("nested", mid, typ))
                 try:
-                    self.bottom.toUpper(self.reply_node(mid, typ, shape))
+                    self.bottom.toUpper(self.reply_node(*d))
                 except Exception as e:   # a reader thread would see it; the sender does not
                     self.log.append(("exc", e, mid))
         if not self.reader_thread:
@@ -430,13 +474,13 @@ class Rig(object):
         self.requests[rid] = ("lib", lkind, new[0])
         return rid
 
-    def reply_node(self, mid, typ, shape):
+    def reply_node(self, mid, typ, shape, content=None):
         rid = self.rid(mid)
         req = self.requests.get(rid)
         attrs = {"id": rid, "type": typ, "from": SERVER}
         children = []
         if typ == "error":
-            children = [N("error", {"code": "404", "text": "item-not-found"})]
+            children = content_children(content or "err-code-text")
         elif typ == "result":
             if req is not None:
                 children = result_children(req[1])
@@ -444,6 +488,10 @@ class Rig(object):
                     attrs["from"] = JID if req[1] == "lastseen" else GJID
             elif shape == "sync":
                 children = result_children("sync")
+            if content:
+                children = children + content_children(content)
+        elif content:
+            children = content_children(content)
         if shape == "sping":
             attrs["xmlns"] = "urn:xmpp:ping"
         elif shape == "sync" and typ != "result":
@@ -477,7 +525,7 @@ class Rig(object):
             finally:
                 self.script = None
             return [["issued", self.mid(rid)]] + self.decode_log(request=True)
-        node = self.reply_node(op[1], op[2], op[3]) if op[0] == "dlv" else self.other_node(op[1], op[2])
+        node = self.reply_node(*op[1:5]) if op[0] == "dlv" else self.other_node(op[1], op[2])
         try:
             self.stack.receive(node)
         except Exception as e:   # the key-upload error callback raises by design
